@@ -547,8 +547,6 @@ def script_jobs(fault_pool, quick):
                     files.append({"name": name, "schema": v, "format": fmt,
                                   "fault": {"kind": kind, "edits": edits, "code": KINDS[kind][1], "what": case["what"]}})
             for via in ("functions", "main"):
-                if quick and via == "main" and pi % 2:
-                    continue
                 jobs.append({"script": True, "pattern": pat, "files": files, "via": via})
         if not quick and rnd < 2:
             # two formats of ONE schema name (the script groups them under one entry), the fault in one of them, next to another file
@@ -789,7 +787,7 @@ def run(w: Workload):
                  "the XML or MediaWiki copy or saved as TSV; hed.scripts.script_util.sort_base_schemas + validate_all_schemas (+ "
                  "validate_schema for single files) on every list, hed.scripts.validate_schemas.main on %s"
                  % ("" if w.quick else " x 4 rotations + 6 lists with two formats of one schema name",
-                    SCRIPT_CLEAN[:3] if w.quick else SCRIPT_CLEAN, SCRIPT_KINDS, "every second pattern" if w.quick else "every list"),
+                    SCRIPT_CLEAN[:3] if w.quick else SCRIPT_CLEAN, SCRIPT_KINDS, "every list"),
            slowest_case_s=round(slow_script, 2))
     w.assumptions += [
         "Part C: a released schema whose full compliance check is empty (Part A) is a clean file for the script; a file is 'mentioned' when "
